@@ -69,7 +69,16 @@ func c02Frames() []model.Frame {
 	f1 := f0.Rows(nil)
 	f2 := f0.Rows([]int{4})
 	f3 := f0.Rows([]int{3, 3, 0})
-	return []model.Frame{f0, f1, f2, f3}
+	// other value patterns: extremes, negative numbers, -0/Inf, strings that are prefixes of each other, non-ASCII
+	f4 := model.Frame{N: 6, Cols: []model.Col{
+		ints("i", -3, 2, math.MaxInt64, math.MinInt64, 0, 4), ints("i2", 2, -3, math.MinInt64, math.MaxInt64, 0, 4),
+		floats("f", math.Copysign(0, -1), math.Inf(1), math.Inf(-1), 2, 0.5, nan), floats("f2", 0, math.Inf(1), 2, math.Inf(-1), nan, nan),
+		bools("b", false, false, true, true, false, true), bools("b2", false, true, true, false, false, true),
+		strs("s", model.String, "a", "ab", "", "B", "\u00e4", "a"), strs("s2", model.String, "ab", "a", N, "b", "\u00e4", "a"),
+		strs("e", model.Enum, "z", "x", "y", N, "z", "x"), strs("e2", model.Enum, "x", "x", N, "y", "z", "z"),
+		ints("id", 0, 1, 2, 3, 4, 5),
+	}}
+	return []model.Frame{f0, f1, f2, f3, f4}
 }
 
 func lf(col, cmp, kind string) model.Leaf { return model.Leaf{Col: col, Cmp: cmp, ArgKind: kind} }
@@ -530,14 +539,15 @@ func c02Run(ctx *core.Ctx) {
 func init() {
 	core.Register(&core.Check{
 		ID:    "C02",
+		Setup: func() { c02Env_() },
 		Level: "model_checking",
-		Rule: "case = (frame, index shape, clause tree). Tier A: every leaf of the ~600-leaf alphabet (all comparators x argument kinds x Inverse, per column type) alone and in 7 wrappers on 4 frames x 7 shapes; " +
+		Rule: "case = (frame, index shape, clause tree). Tier A: every leaf of the ~600-leaf alphabet (all comparators x argument kinds x Inverse, per column type) alone and in 7 wrappers on 5 frames x 7 shapes; " +
 			"A2: every ordered pair of leaves under And/Or/Or(Not); B: every And/Or/Not tree with <=K leaf slots and bounded depth, every assignment of core leaves to the slots. " +
 			"Non-trivial = the clause keeps some but not all rows according to the model; distinct by (frame, clause text).",
 		Assumptions: []string{
 			"row-wise reference evaluator written from the statement: null/NaN false except !=, in false on null, Not/Inverse = complement, Null() = all rows",
 			"float constants against int columns are integral; bit masks non-negative; enum columns are declared (derived enums are C17)",
-			"one designed 5-row frame (every comparator has <,=,> and null rows, one row null on both sides) plus 0-row, 1-row and duplicate-row frames; other cell values are not explored",
+			"one designed 5-row frame (every comparator has <,=,> and null rows, one row null on both sides), 0-row, 1-row and duplicate-row frames, and a 6-row frame of extreme/negative/-0/Inf/prefix/non-ASCII values; other cell values are not explored",
 		},
 		Bound: map[string]string{
 			"quick":    "tier A all leaves; A2 all ordered leaf pairs; B trees: k=1,2 depth<=3 over 32 core leaves, k=3 depth<=2 over 16",
